@@ -18,8 +18,8 @@ RULE = (
     "agree too; two jobs exist both as a directly created CsvPath and as a CsvPaths-managed run and must give the same lines, variables, verdict and counters; non-trivial = the history contains two different jobs; state = (job, position in history)"
 )
 BOUNDS = {
-    "quick": "38 jobs (one of them aborting under validation-mode raise; two printing $.csvpath references under different dialects; three under non-default dialects, two on a file with blank records, two on a file whose header cells need non-idempotent cleaning, two on a one-record file): 38 fresh-process references + 18 warm-cache fresh processes; all 1,444 ordered pairs (fresh CsvPaths per job) + 324 ordered pairs of CsvPaths jobs on ONE shared instance + 1,000 triples over a 10-job subset; 6 direct-vs-managed twin pairs",
-    "thorough": "all pairs, all 54,872 triples, shared-instance triples, sequences of 4 over a 6-job subset, of 5 over 4 jobs, of 6 over 3 jobs",
+    "quick": "40 jobs (two CsvPaths-created CsvPath objects on same-named files in different directories; one of them aborting under validation-mode raise; two printing $.csvpath references under different dialects; three under non-default dialects, two on a file with blank records, two on a file whose header cells need non-idempotent cleaning, two on a one-record file): 40 fresh-process references + 18 warm-cache fresh processes; all 1,600 ordered pairs (fresh CsvPaths per job) + 324 ordered pairs of CsvPaths jobs on ONE shared instance + 1,000 triples over a 10-job subset; 6 direct-vs-managed twin pairs",
+    "thorough": "all pairs, all 64,000 triples, shared-instance triples, sequences of 4 over a 6-job subset, of 5 over 4 jobs, of 6 over 3 jobs",
 }
 CHUNK = 20
 BUDGET = {"quick": 600, "thorough": 3400}
@@ -83,6 +83,9 @@ JOBS = [
     # prints with $.csvpath references under two different dialects (runtime data must not be shared between CsvPath instances)
     {"kind": "path", "match": '[print("n $.csvpath.count_lines of $.csvpath.total_lines ")]', "rows": A},
     {"kind": "path", "match": '[print("n $.csvpath.count_lines of $.csvpath.total_lines ")]', "rows": A, "dialect": [";", "'"]},
+    # CsvPaths-created CsvPath objects aimed at two DIFFERENT files that have the same base name in different directories
+    {"kind": "cpath", "sub": "d1", "match": '[@t = total_lines() @n = count_headers() push("h", header_name(0)) yes()]', "rows": [["id", "name"], ["1", "a"], ["2", "b"]]},
+    {"kind": "cpath", "sub": "d2", "match": '[@t = total_lines() @n = count_headers() push("h", header_name(0)) yes()]', "rows": B + [["k", "7", "s"], ["n", "6", "t"]]},
 ]
 PATHS_JOBS = [i for i, j in enumerate(JOBS) if j["kind"] == "paths"]
 SUB10 = [0, 1, 2, 3, 4, 5, 12, 14, 17, 19]
@@ -175,6 +178,24 @@ def run_job(job, fresh=False, shared=None):
             "errors": [[e[0], e[1]] for e in o["errors"]], "exc": o["exc"][0] if o["exc"] else None,
             "scan_count": o["scan_count"], "match_count": o["match_count"],
         }
+    elif job["kind"] == "cpath":
+        from csvpath import CsvPaths
+
+        d = os.path.join(sandbox.root(), "data", job["sub"])
+        os.makedirs(d, exist_ok=True)
+        sandbox.write_csv(rows, path=os.path.join(d, "same.csv"), delimiter=dl, quotechar=qc)
+        cp = shared.setdefault("cpx", CsvPaths(print_default=False)) if shared is not None else CsvPaths(print_default=False)
+        p = cp.csvpath()
+        exc = None
+        lines = None
+        try:
+            with sandbox.capture_stdout():
+                p.parse(f"$data/{job['sub']}/same.csv[*]{job['match']}")
+                lines = [list(l) for l in p.collect()]
+        except Exception as e:  # noqa: BLE001
+            exc = e
+        pub, _ = run.split_vars(p.variables)
+        rec = {"lines": lines, "vars": pub, "is_valid": p.is_valid, "exc": type(exc).__name__ if exc else None, "scan_count": p.scan_count, "match_count": p.match_count, "headers": list(p.headers or [])}
     else:
         from csvpath import CsvPaths
         from mcx import groups
